@@ -2,6 +2,7 @@ package main
 
 import (
 	"bufio"
+	"encoding/json"
 	"flag"
 	"fmt"
 	"math/rand"
@@ -136,6 +137,246 @@ func cmdRecordTxn(args []string) error {
 			done++
 			last = dump
 			g.SetState(dump)
+		}
+		in.Close()
+	}
+	return nil
+}
+
+func init() {
+	register("replay-txn", "re-execute the events of a recorded trace on fresh instances and record again", cmdReplayTxn)
+}
+
+// cmdReplayTxn re-runs the recorded operations (not the generator), so a
+// mismatch can be confirmed in isolation from its replay file.
+func cmdReplayTxn(args []string) error {
+	fs := flag.NewFlagSet("replay-txn", flag.ExitOnError)
+	schemaFile := fs.String("schema-file", "schema.abs.json", "abstract schema")
+	in := fs.String("i", "events.ndjson", "recorded events")
+	out := fs.String("o", "trace.ndjson", "output trace")
+	mode := fs.String("mode", "direct", "direct|server")
+	_ = fs.Parse(args)
+	s, err := abs.LoadSchema(*schemaFile)
+	if err != nil {
+		return err
+	}
+	b, err := abs.Build(s, false)
+	if err != nil {
+		return err
+	}
+	evs, err := readEvents(*in)
+	if err != nil {
+		return err
+	}
+	f, err := os.Create(*out)
+	if err != nil {
+		return err
+	}
+	defer f.Close()
+	w := bufio.NewWriter(f)
+	defer w.Flush()
+	rec := rectxn.NewRecorder(w)
+	dir, err := os.MkdirTemp("", "vh-sock")
+	if err != nil {
+		return err
+	}
+	defer os.RemoveAll(dir)
+	tok := abs.NewTokens()
+	insts := map[int]*rectxn.Inst{}
+	last := map[int]map[string]interface{}{}
+	defer func() {
+		for _, i := range insts {
+			i.Close()
+		}
+	}()
+	for _, e := range evs {
+		id := int(e["db"].(float64))
+		switch e["ev"] {
+		case "reset":
+			if old := insts[id]; old != nil {
+				old.Close()
+			}
+			inst, err := rectxn.NewInst(id, b, tok, *mode == "server" && id == 0, dir)
+			if err != nil {
+				return err
+			}
+			insts[id] = inst
+			last[id] = map[string]interface{}{}
+			for t := range s.Tables {
+				last[id][t] = map[string]interface{}{}
+			}
+			if err := rec.Emit(map[string]interface{}{"ev": "reset", "db": id}); err != nil {
+				return err
+			}
+		case "load":
+			from := int(e["from"].(float64))
+			if err := insts[id].LoadFrom(rec, from, last[from]); err != nil {
+				return err
+			}
+		case "monitor":
+			if *mode != "server" {
+				continue
+			}
+			req := e["req"].(map[string]interface{})
+			m, initial, err := insts[id].AddMonitor(e["mon"].(string), e["method"].(string), req)
+			if err != nil {
+				return err
+			}
+			if err := rec.Emit(map[string]interface{}{"ev": "monitor", "db": id, "mon": m.ID, "enc": m.Enc,
+				"method": e["method"], "req": req, "initial": initial}); err != nil {
+				return err
+			}
+		case "txn":
+			ops, err := decodeOps(e["ops"])
+			if err != nil {
+				return err
+			}
+			dump, err := insts[id].RunTxn(rec, ops)
+			if err != nil {
+				return err
+			}
+			last[id] = dump
+		}
+	}
+	return nil
+}
+
+func readEvents(path string) ([]map[string]interface{}, error) {
+	f, err := os.Open(path)
+	if err != nil {
+		return nil, err
+	}
+	defer f.Close()
+	var out []map[string]interface{}
+	dec := json.NewDecoder(f)
+	for dec.More() {
+		var m map[string]interface{}
+		if err := dec.Decode(&m); err != nil {
+			return nil, err
+		}
+		out = append(out, m)
+	}
+	return out, nil
+}
+
+func decodeOps(v interface{}) ([]abs.AOp, error) {
+	// TLC serialises an empty record as [] : turn empty arrays in record
+	// positions back into objects
+	if l, ok := v.([]interface{}); ok {
+		for _, o := range l {
+			if m, ok := o.(map[string]interface{}); ok {
+				if a, ok := m["row"].([]interface{}); ok && len(a) == 0 {
+					m["row"] = map[string]interface{}{}
+				}
+				if rows, ok := m["rows"].([]interface{}); ok {
+					for i, r := range rows {
+						if a, ok := r.([]interface{}); ok && len(a) == 0 {
+							rows[i] = map[string]interface{}{}
+						}
+					}
+				}
+			}
+		}
+	}
+	b, err := json.Marshal(v)
+	if err != nil {
+		return nil, err
+	}
+	var ops []abs.AOp
+	if err := json.Unmarshal(b, &ops); err != nil {
+		return nil, err
+	}
+	for i := range ops {
+		ops[i].Normalize()
+	}
+	return ops, nil
+}
+
+func init() {
+	register("replay-cases", "replay TLC-enumerated transaction histories (MC_Txn CASE lines) on the real engine", cmdReplayCases)
+}
+
+// cmdReplayCases: every case is a history (sequence of transactions, each a
+// sequence of indexes into the operation pool); it is executed on a fresh
+// database and recorded as a trace for TraceTxn.tla.
+func cmdReplayCases(args []string) error {
+	fs := flag.NewFlagSet("replay-cases", flag.ExitOnError)
+	schemaFile := fs.String("schema-file", "schema.abs.json", "abstract schema")
+	poolFile := fs.String("pool", "pool.json", "operation pool (JSON array of abstract operations)")
+	casesFile := fs.String("cases", "cases.ndjson", "one history per line")
+	out := fs.String("o", "trace.ndjson", "output trace")
+	mode := fs.String("mode", "direct", "direct|server")
+	_ = fs.Parse(args)
+	s, err := abs.LoadSchema(*schemaFile)
+	if err != nil {
+		return err
+	}
+	b, err := abs.Build(s, false)
+	if err != nil {
+		return err
+	}
+	pb, err := os.ReadFile(*poolFile)
+	if err != nil {
+		return err
+	}
+	var poolRaw []interface{}
+	if err := json.Unmarshal(pb, &poolRaw); err != nil {
+		return err
+	}
+	pool, err := decodeOps(poolRaw)
+	if err != nil {
+		return err
+	}
+	cf, err := os.Open(*casesFile)
+	if err != nil {
+		return err
+	}
+	defer cf.Close()
+	f, err := os.Create(*out)
+	if err != nil {
+		return err
+	}
+	defer f.Close()
+	w := bufio.NewWriter(f)
+	defer w.Flush()
+	rec := rectxn.NewRecorder(w)
+	dir, err := os.MkdirTemp("", "vh-sock")
+	if err != nil {
+		return err
+	}
+	defer os.RemoveAll(dir)
+	tok := abs.NewTokens()
+	dec := json.NewDecoder(cf)
+	for dec.More() {
+		var hist [][]int
+		if err := dec.Decode(&hist); err != nil {
+			return err
+		}
+		in, err := rectxn.NewInst(0, b, tok, *mode == "server", dir)
+		if err != nil {
+			return err
+		}
+		if err := rec.Emit(map[string]interface{}{"ev": "reset", "db": 0}); err != nil {
+			return err
+		}
+		for _, tx := range hist {
+			var ops []abs.AOp
+			for _, i := range tx {
+				if i < 1 || i > len(pool) {
+					return fmt.Errorf("pool index %d out of range", i)
+				}
+				o := pool[i-1]
+				// deep copy the mutable members
+				bb, _ := json.Marshal(o)
+				var c abs.AOp
+				_ = json.Unmarshal(bb, &c)
+				c.Normalize()
+				ops = append(ops, c)
+			}
+			if _, err := in.RunTxn(rec, ops); err != nil {
+				in.Close()
+				return err
+			}
 		}
 		in.Close()
 	}
